@@ -33,6 +33,12 @@ extern const int C17_NREC;
 extern uint8_t C17_REC[64];
 void c17_reset_record(void);
 int c17_record_slot(int op); /* slot id of a record operation, -1 otherwise */
+/* C17_OPS[C17_NALL + C17_NREC .. + C17_NSHD) are the shared-dictionary operations: every thread queries and encodes with
+ * ONE dictionary object built before the threads start (a `const varintDict *` argument: a shared read-only input) */
+extern const int C17_NSHD;
+#define C17_NSHREG 4
+extern const void *C17_SHREG[C17_NSHREG]; /* the shared dictionary object, its value array, the two query arrays */
+extern size_t C17_SHREG_BYTES[C17_NSHREG];
 #define C17_NIN 9
 #define C17_LARGE_N 12000
 #define C17_MEDIUM_N 2000
